@@ -79,12 +79,12 @@ def crashStep (c : CrWorld) (ws : List String) : CrWorld × String :=
       | some t, some (.file old), some i, some cut, some mode =>
         if !crValidPoint t i cut then (c, "bad-op") else
         let img := crashImage ⟨t.fs0, t.dur0⟩ t.prims i cut mode
-        let w1 : StWorld := { c.w with dir := alSet c.w.dir sid img }
+        let w1 : StWorld := { c.w with dir := alSet c.w.dir (filePrefixKey sid) img }
         let c1 : CrWorld := { c with w := w1, dur := alSet c.dur sid img }
         let prims := (fileOpenPrims old.sync img w1.clock).2
         let f := FileW.open old.sync img w1.clock
         let ob : Obs := ⟨true, f.st.cache.nextS, f.st.cache.nextT, decide (f.st.cache.ctime ≠ old.cache.ctime), []⟩
-        let w2 : StWorld := { w1 with clock := f.clock, dir := alSet w1.dir sid f.fs, stores := alSet w1.stores sid (.file f.st) }
+        let w2 : StWorld := { w1 with clock := f.clock, dir := alSet w1.dir (filePrefixKey sid) f.fs, stores := alSet w1.stores sid (.file f.st) }
         let d := applyPrimsD ⟨img, img⟩ prims
         ({ w := w2, dur := alSet c1.dur sid d.dur, traces := alSet c1.traces sid ⟨img, img, prims⟩ },
          joinSp [obsStr ob (some (filesStr f.fs f.st.cache.ctime)), crWindow t i cut, "all",
